@@ -2,7 +2,7 @@ from props import KERNEL_TB, HARNESS_TB
 
 PROP = dict(
     title="Oracle price averaging",
-    lean_modules=["Comdex.Props.C17", "Comdex.Props.C17Feed"],
+    lean_modules=["Comdex.Props.C17", "Comdex.Props.C17Feed", "Comdex.Props.C17Reconf"],
     namespaces=["Comdex.C17"],
     required_theorems=["Comdex.C17.no_panic", "Comdex.C17.refines_spec", "Comdex.C17.active_mean",
                        "Comdex.C17.active_only_after_N_positive", "Comdex.C17.zero_sample_deactivates",
@@ -12,7 +12,14 @@ PROP = dict(
                        "Comdex.C17.discard_clears_every_window_first", "Comdex.C17.no_sampling_block_changes_nothing",
                        "Comdex.C17.unvalidated_feed_refuses_every_valuation", "Comdex.C17.band_validation_iff_new_request",
                        "Comdex.C17.band_discard_only_after_long_outage", "Comdex.C17.band_discard_when_long_outage",
-                       "Comdex.C17.band_short_outage_forgotten"],
+                       "Comdex.C17.band_short_outage_forgotten",
+                       "Comdex.C17.reconfigure_restarts_every_window", "Comdex.C17.every_segment_is_a_fresh_run",
+                       "Comdex.C17.no_oob_across_reconfigurations", "Comdex.C17.segment_refines_spec", "Comdex.C17.segment_active_mean",
+                       "Comdex.C17.activation_needs_N_fresh_positive", "Comdex.C17.chain_never_panics", "Comdex.C17.chain_window_history",
+                       "Comdex.C17.chain_activation_needs_N_fresh_positive", "Comdex.C17.unconfigured_chain_only_switches_off",
+                       "Comdex.C17.stale_full_window_not_wf", "Comdex.C17.stale_window_oob_counterexample",
+                       "Comdex.C17.stale_window_early_activation_counterexample", "Comdex.C17.delete_by_script_keeps_windows",
+                       "Comdex.C17.chain_stale_counterexample"],
     harness_tests=["TestC17", "TestC17Feed"],
     trusted_base=[KERNEL_TB, HARNESS_TB,
                   "Model/Twa.lean is hand-written from x/market/keeper/oracle.go:67-170 and x/market/abci.go:24-60; "
